@@ -239,4 +239,172 @@ def NoClobber (e : Endian) : Bytes × List Reloc → List Call → Prop
      | .ok st' => NoClobber e st' cs
      | _ => True)
 
+instance (e : Endian) : (st : Bytes × List Reloc) → (cs : List Call) → Decidable (NoClobber e st cs)
+  | _, [] => isTrue trivial
+  | st, c :: cs =>
+    match h : stepR e st c with
+    | .ok st' =>
+      have := instDecidableNoClobber e st' cs
+      decidable_of_iff (CallClear st.2 c ∧ NoClobber e st' cs) (by simp [NoClobber, h])
+    | .err _ => decidable_of_iff (CallClear st.2 c) (by simp [NoClobber, h])
+    | .panic _ => decidable_of_iff (CallClear st.2 c) (by simp [NoClobber, h])
+    | .diverge => decidable_of_iff (CallClear st.2 c) (by simp [NoClobber, h])
+
 end Gimli.Wr
+
+/-! ## reading -/
+namespace Gimli.Rr
+open Gimli Gimli.Rd
+
+/-- the required methods of `trait Reader` and the three methods `RelocateReader` overrides:
+every other `Reader` method is a default method written with these, so every parser is a
+program over them. `i`, `j` index the table of readers, `k` the table of offset ids. -/
+inductive Prim where
+  | readSlice (i n : Nat)
+  | skip (i n : Nat)
+  | split (i n : Nat)
+  | trunc (i n : Nat)
+  | empty (i : Nat)
+  | find (i : Nat) (b : UInt8)
+  | clone (i : Nat)
+  | drop (i : Nat)
+  | offFrom (i j : Nat)
+  | offId (i : Nat)
+  | lookup (i k : Nat)
+  | len (i : Nat)
+  | toSlice (i : Nat)
+  | toStr (i : Nat)
+  | toLossy (i : Nat)
+  | addr (i n : Nat)
+  | offset (i : Nat) (f : Format)
+  | sizedOff (i n : Nat)
+  deriving Repr, DecidableEq
+
+/-- the C10 history operation that executes a primitive -/
+def Prim.toOp : Prim → Op
+  | .readSlice i n => .slice i n
+  | .skip i n => .skip i n
+  | .split i n => .split i n
+  | .trunc i n => .trunc i n
+  | .empty i => .empty i
+  | .find i b => .find i b
+  | .clone i => .clone i
+  | .drop i => .drop i
+  | .offFrom i j => .offFrom i j
+  | .offId i => .offId i
+  | .lookup i k => .lookup i k
+  | .len i => .len i
+  | .toSlice i => .toSlice i
+  | .toStr i => .toStr i
+  | .toLossy i => .toLossy i
+  | .addr i n => .addr i n
+  | .offset i f => .offset i f
+  | .sizedOff i n => .sizedOff i n
+
+/-- the reader a primitive is applied to -/
+def Prim.reader : Prim → Nat
+  | .readSlice i _ | .skip i _ | .split i _ | .trunc i _ | .empty i | .find i _ | .clone i
+  | .drop i | .offFrom i _ | .offId i | .lookup i _ | .len i | .toSlice i | .toStr i
+  | .toLossy i | .addr i _ | .offset i _ | .sizedOff i _ => i
+
+/-- a parser: it performs reader primitives, looks at what they returned (value or error, and
+the windows of the readers involved) and continues accordingly -/
+inductive Prog (α : Type) where
+  | ret (a : α)
+  | fail (e : Err)
+  | step (p : Prim) (k : Obs → Prog α)
+
+/-- run a parser on a reader kind (through C10's `step`) -/
+def run {σ α : Type} (I : Impl σ) (m : Mode) (e : Endian) (valid : Bytes → Bool)
+    (lossy : Bytes → Bytes) : Prog α → St σ → Out α
+  | .ret a, _ => .ok a
+  | .fail x, _ => .err x
+  | .step p k, st =>
+    let r := step I m e valid lossy st p.toOp
+    run I m e valid lossy (k r.1) r.2
+
+/-- one entry of a relocation set: the field `[off, off+size)` gets `addend` added -/
+structure RRel where
+  off : Nat
+  size : Nat
+  addend : Int
+  deriving Repr, DecidableEq
+
+/-- the `Relocate` implementation a relocation set induces (an offset → addend map, applied
+with wrapping 64-bit addition) -/
+def relOf (ρ : List RRel) : Rel :=
+  let f := fun (o v : Nat) =>
+    match ρ.find? (fun r => r.off = o) with
+    | some r => Out.ok (Wr.addWrap v r.addend)
+    | none => Out.ok v
+  { addr := f, offs := f }
+
+/-- apply one entry to the section bytes: the `size`-byte field at `off` (byte order `e`) gets
+`addend` added; it is an error if the field is not inside the section or the sum does not fit -/
+def applyOneR (e : Endian) (b : Bytes) (r : RRel) : Out Bytes :=
+  if r.off + r.size ≤ b.length then
+    let old := Ints.fromBytes e ((b.drop r.off).take r.size)
+    let new := (old : Int) + r.addend
+    if 0 ≤ new ∧ new < 2 ^ (8 * r.size) then
+      .ok (Wr.patch b r.off (Ints.toBytes e r.size new.toNat))
+    else .err .wValueTooLarge
+  else .err .wOffsetOutOfBounds
+
+/-- the section with the whole relocation set applied -/
+def applyR (e : Endian) : List RRel → Bytes → Out Bytes
+  | [], b => .ok b
+  | r :: rs, b => do let b' ← applyOneR e b r; applyR e rs b'
+
+/-! ### the hypothesis of read transparency -/
+
+/-- the byte range `[o, o+n)` touches no relocated field -/
+def disjoint (ρ : List RRel) (o n : Nat) : Bool :=
+  n == 0 || ρ.all (fun r => decide (r.off + r.size ≤ o) || decide (o + n ≤ r.off))
+
+/-- `[o, o+n)` is exactly a relocated field, or touches none -/
+def hitOrMiss (ρ : List RRel) (o n : Nat) : Bool :=
+  ρ.any (fun r => r.off == o && r.size == n) || disjoint ρ o n
+
+/-- A primitive applied to a reader with window `c` is compatible with the relocation set: what
+it inspects without relocating (`read_slice`, `find` up to the byte found, `to_slice`/`to_string*`
+the whole window) touches no relocated field, and a relocatable read that succeeds reads exactly a
+relocated field with its size, or no relocated byte at all. -/
+def primOK (ρ : List RRel) (c : Cur) : Prim → Bool
+  | .readSlice _ n => decide (c.len < n) || disjoint ρ c.off n
+  | .find _ b =>
+    disjoint ρ c.off (match position c.bytes b with | some i => i + 1 | none => c.len)
+  | .toSlice _ | .toStr _ | .toLossy _ => disjoint ρ c.off c.len
+  | .addr _ n =>
+    !(decide (n = 1 ∨ n = 2 ∨ n = 4 ∨ n = 8)) || decide (c.len < n) || hitOrMiss ρ c.off n
+  | .offset _ f => decide (c.len < f.wordSize) || hitOrMiss ρ c.off f.wordSize
+  | .sizedOff _ n =>
+    !(decide (n = 1 ∨ n = 2 ∨ n = 4 ∨ n = 8)) || decide (c.len < n) || hitOrMiss ρ c.off n
+  | _ => true
+
+/-- the entries are non-empty and pairwise disjoint -/
+def separated : List RRel → Bool
+  | [] => true
+  | r :: rs =>
+    decide (0 < r.size) &&
+    rs.all (fun r' => decide (r.off + r.size ≤ r'.off) || decide (r'.off + r'.size ≤ r.off)) &&
+    separated rs
+
+/-- along the run of the parser `P` through the relocating reader, every primitive is compatible
+with the relocation set (`primOK`) -/
+def compat {α : Type} (ρ : List RRel) (m : Mode) (e : Endian) (valid : Bytes → Bool)
+    (lossy : Bytes → Bytes) : Prog α → St (RCur Cur) → Bool
+  | .ret _, _ => true
+  | .fail _, _ => true
+  | .step p k, st =>
+    (match st.get p.reader with
+     | some s => primOK ρ s.rdr p
+     | none => true) &&
+    (let r := step (relocImpl sharedImpl (relOf ρ)) m e valid lossy st p.toOp
+     compat ρ m e valid lossy (k r.1) r.2)
+
+/-- the straight-line parser that performs the given primitives and returns what it observed -/
+def Prog.ofList : List Prim → List Obs → Prog (List Obs)
+  | [], acc => .ret acc.reverse
+  | p :: ps, acc => .step p (fun o => Prog.ofList ps (o :: acc))
+
+end Gimli.Rr
